@@ -185,6 +185,30 @@ func runCompiled(c *C16Case, rec *bufio.Writer, tmp string, idx int) (res Result
 		check("loaded-data", out4, err4)
 	}
 
+	// B2. the template is parsed without a name and registered as an object (ParseTemplate + RegisterTemplate): compiling the
+	// name it was registered under gives a compiled form of that name, which another engine renders under that name
+	e6 := twig.New()
+	e6.RegisterString(helperName, helper)
+	if t6, perr := e6.ParseTemplate(src); perr == nil {
+		e6.RegisterTemplate(name, t6)
+		if comp6, err := e6.CompileTemplate(name); err != nil {
+			fail("compile-registered-object", err.Error(), "")
+		} else if comp6.Name != name || comp6.Source != src {
+			fail("compiled-object-fields", fmt.Sprintf("%q len=%d", comp6.Name, len(comp6.Source)), fmt.Sprintf("%q len=%d", name, len(src)))
+		} else if data6, err := twig.SerializeCompiledTemplate(comp6); err != nil {
+			fail("serialize-registered-object", err.Error(), "")
+		} else {
+			e7 := twig.New()
+			e7.RegisterString(helperName, helper)
+			if err := e7.LoadFromCompiledData(data6); err != nil {
+				fail("load-registered-object", err.Error(), "")
+			} else {
+				out7, err7 := e7.Render(name, ctx)
+				check("registered-object", out7, err7)
+			}
+		}
+	}
+
 	// D. compiling a name again after the template under it was replaced gives the compiled form of the new one,
 	// whichever way it was replaced
 	replSrc := "REPLACED" + src
